@@ -112,3 +112,19 @@ Theorem C01_regenerated_guard_parenthesises_exactly_then : forall oracle : FmAst
   forall u x, MinusGuard.parenthesise_double_minus oracle (ParensTie.embed_uop u) (ParensTie.embed x) = ParensTie.embed (Parens.guard u x).
 Proof. exact MinusGuardProof.generated_guard_is_model. Qed.
 Print Assumptions C01_regenerated_guard_parenthesises_exactly_then.
+(* Tie 1 for the blank that keeps a long-bracket string away from the `[` of an index or a table key (`t[ [[s]] ]`; without it the text
+   would read `t[[[s]]]`): the function regenerated from /repo's is_brackets_string is the L0 model's [bstr], which says "the leftmost leaf,
+   through parentheses and left operands, is a long-bracket string"; the model then writes the blanks exactly there *)
+From SV Require BracketsProof.
+From SVgen Require BracketsString.
+Theorem C01_regenerated_brackets_string_test_is_the_models : forall e, BracketsString.is_brackets_string (BracketsProof.emb e) = Fmt0.bstr e.
+Proof. exact BracketsProof.generated_is_brackets_string_is_bstr. Qed.
+Print Assumptions C01_regenerated_brackets_string_test_is_the_models.
+Theorem C01_brackets_string_test_is_about_the_leftmost_leaf : forall e,
+  Fmt0.bstr e = match BracketsProof.leftmost e with Fmt0.EBrk _ _ => true | _ => false end.
+Proof. exact BracketsProof.bstr_is_leftmost_long. Qed.
+Print Assumptions C01_brackets_string_test_is_about_the_leftmost_leaf.
+Theorem C01_L0_long_string_key_is_kept_away_from_the_bracket : forall c d n b,
+  Fmt0.brk (Fmt0.bstr (Fmt0.EBrk n b)) (Fmt0.pexp c d (Fmt0.EBrk n b)) = (Fmt0.kw "[" :: Fmt0.sp :: Lex.TStr Lex.QBrackets n b :: Fmt0.sp :: Fmt0.kw "]" :: nil)%list.
+Proof. exact BracketsProof.brackets_of_a_long_string. Qed.
+Print Assumptions C01_L0_long_string_key_is_kept_away_from_the_bracket.
